@@ -65,6 +65,21 @@ def rp_setup(c):
     return claims, other_key, nonce, leeway
 
 
+def rp_callback_cases():
+    """the whole callback of the three client integrations (authorize_access_token): what they accept as the provider's ID Token"""
+    return [{"op": "rp_callback", "fw": fw, "pert": p} for fw in ("flask", "django", "starlette") for p in ("none", "issuer+/", "issuer-other", "nonce-other", "nonce-missing")]
+
+
+def impl_rp_callback(c):
+    import clientworld as cw
+    w = cw.ClientWorld(c["fw"], ["p1", "p2"], False, False, True)
+    b = w.begin(0, "p1", "https://rp/cb")
+    p = c["pert"]
+    o = w.callback(0, "p1", b["state"], id_nonce={"nonce-other": "zzz", "nonce-missing": None}.get(p, b["url_nonce"]),
+                   id_iss={"issuer+/": "/", "issuer-other": ".evil.example"}.get(p, ""))
+    return {"id_token": o.get("id_token"), "out": o.get("out"), **({"raised": o["raised"]} if "raised" in o else {})}
+
+
 def impl_rp(c):
     import rpclient as rc
     ms.install_clock(); CLOCK.now = 1_000_000
@@ -74,7 +89,7 @@ def impl_rp(c):
 
 
 def cases(rng, tier):
-    return _cases(rng, tier) + rp_cases()
+    return _cases(rng, tier) + rp_cases() + rp_callback_cases()
 
 
 def _cases(rng, tier):
@@ -111,6 +126,7 @@ def _cases(rng, tier):
     # replay histories
     for rt in RTS:
         out.append({"op": "replay", "rt": rt})
+        out.append({"op": "replay", "rt": rt, "pkce_ext": True})      # the hybrid grant registered together with the PKCE extension
     for alg in ALGS[:3]:
         for nonce, code, at in [("n", "c", "t"), (None, None, "t"), ("n", None, None), (None, None, None)]:
             out.append({"op": "generate", "alg": alg, "nonce": nonce, "code": code, "access_token": at})
@@ -187,6 +203,8 @@ def issue(rt, alg, nonce="n-0S6_WzA2Mj", token_nonce=None):
 def impl(c):
     if c["op"] == "rp_integration":
         return impl_rp(c)
+    if c["op"] == "rp_callback":
+        return impl_rp_callback(c)
     ms.install_clock()
     CLOCK.now = 1_000_000
     op = c["op"]
@@ -244,7 +262,7 @@ def impl(c):
 
 def impl_replay(c):
     rt = c["rt"]
-    store, srv, rp = ms.build(oidc=True, require_nonce=False)
+    store, srv, rp = ms.build(oidc=True, require_nonce=False, front_channel_pkce=bool(c.get("pkce_ext")))
     store.clients["pub"] = Client("pub", "", ["https://c/cb"], "openid", ms.ALL_GRANT_TYPES, ms.ALL_RESPONSE_TYPES, method="none")
     store.clients["pub2"] = Client("pub2", "", ["https://c/cb"], "openid", ms.ALL_GRANT_TYPES, ms.ALL_RESPONSE_TYPES, method="none")
     out = []
@@ -275,6 +293,8 @@ def enc(v):
 
 def model_line(c):
     op = c["op"]
+    if op == "rp_callback":
+        return None
     if op == "rp_integration":
         if c["pert"] == "other-key":
             return None          # signature level: C01
@@ -315,6 +335,8 @@ def model_line(c):
 
 
 def project(c, out):
+    if c["op"] == "rp_callback":
+        return out
     if c["op"] == "rp_integration":
         return {"ok": True} if out.get("accepted") else out.get("canon", out)
     if c["op"] in ("half_hash", "generate"):
@@ -336,6 +358,14 @@ def oracle(c, out):
     op = c["op"]
     def bad(what, **sig):
         v.append((what, dict(sig, op=op)))
+    if op == "rp_callback":
+        if "raised" in out:
+            bad(f"{c['fw']} client callback raised {out['raised']}", kind="crash", exc=out["raised"].split(":")[0]); return v
+        want = "validated" if c["pert"] == "none" else "rejected"
+        if not str(out.get("id_token")).startswith(want):
+            bad(f"the {c['fw']} client's callback (authorize_access_token) left the ID Token {out.get('id_token')} although {c['pert']}; expected {want}",
+                kind="rp-accepts" if want == "rejected" else "rp-refuses", pert=c["pert"].split("-")[0].split("+")[0], fw=c["fw"])
+        return v
     if op == "rp_integration":
         if "raised" in out:
             bad(f"{c['fw']} client parse_id_token raised {out['raised']}", kind="crash", exc=out["raised"].split(":")[0]); return v
@@ -406,6 +436,8 @@ def oracle(c, out):
 def classify(c, out):
     if c["op"] == "rp_integration":
         return f"rp_integration/{c['fw']}/" + ("accepted" if out.get("accepted") else "refused")
+    if c["op"] == "rp_callback":
+        return f"rp_callback/{c['fw']}/{out.get('id_token')}"
     if c["op"] == "e2e":
         return f"e2e/{c['rt']}/{c['pert']}/" + ("ok" if "ok" in out else out.get("err", out.get("provider_error", "raised")))
     return c["op"]
